@@ -39,6 +39,8 @@ type SyncScenario struct {
 	// SoftType: the header type reports every rejection of its own as soft, also for adjacent headers (the
 	// Syncer then tries to bifurcate with nothing in between)
 	SoftType bool `json:"soft_type,omitempty"`
+	// ErrKind: what the getter's injected range failures look like (see simGetter.ErrKind)
+	ErrKind int `json:"err_kind,omitempty"`
 	// Sched, when set, selects the schedule engine (c03sched_test.go); the other fields are unused then.
 	Sched *SyncSchedScenario `json:"sched,omitempty"`
 }
@@ -91,6 +93,7 @@ func genSync(adversarial bool) func(t *rapid.T) SyncScenario {
 			Lenient: adversarial && rapid.IntRange(0, 2).Draw(t, "lenient") == 0,
 		}
 		s.SoftType = adversarial && rapid.IntRange(0, 3).Draw(t, "softtype") == 0
+		s.ErrKind = rapid.SampledFrom([]int{0, 0, 1, 2, 3}).Draw(t, "errkind")
 		if s.Prefill > s.Tip0 {
 			s.Prefill = s.Tip0
 		}
@@ -131,6 +134,7 @@ func runSync(t *testing.T, s SyncScenario, c03 bool) (res Result) {
 			return
 		}
 		defer e.stop()
+		e.getter.set(func() { e.getter.ErrKind = s.ErrKind })
 		ctx, cancel := vctx(1000 * time.Hour)
 		defer cancel()
 		if s.Prefill > 0 {
@@ -165,17 +169,29 @@ func runSync(t *testing.T, s SyncScenario, c03 bool) (res Result) {
 		// newest head was learned (then only the next learned head resumes it), the store has reached
 		// the newest head the Syncer acknowledged - including heads learned while a sync was running.
 		caughtUp := func(tag string) bool {
+			errorSince := false
 			for _, c := range e.getter.Calls() {
 				// a range request that failed at or after the moment the newest head was learned (it may
 				// have been started before) aborted a sync that the newest head cannot have re-triggered yet
 				if c.Method == "GetRangeByHeight" && c.Err != "" && c.EndAt >= learnedMs {
-					return true
+					errorSince = true
 				}
 			}
 			sh, err := e.st.Head(ctx)
 			if err != nil {
 				res.failf("%s: store head: %v", tag, err)
 				return false
+			}
+			if errorSince && sh.H < maxAcked {
+				// a getter error aborted the attempt and nothing has resumed it yet: State() reports it
+				if st := e.syncer.State(); st.Error == "" {
+					res.failf("%s: a getter error aborted the sync towards %d (store head %d) but State() reports no error: %+v", tag, maxAcked, sh.H, st)
+					return false
+				}
+				return true
+			}
+			if errorSince {
+				return true
 			}
 			if sh.H < maxAcked {
 				res.failf("%s: at quiescence, without any getter error since the head %d was learned, the store head is %d (state %+v)", tag, maxAcked, sh.H, e.syncer.State())
